@@ -83,6 +83,9 @@ pub fn check(c: &OntCase, stats: &mut Stats) -> CheckResult {
     if n.blank_rows {
         stats.label("blank-rows-in-hpoa");
     }
+    if n.no_header {
+        stats.label("obo-without-header");
+    }
     let colon = expected.terms.iter().any(|t| t.name.contains(": "));
     if colon {
         stats.label("name-with-colon-space");
@@ -150,7 +153,10 @@ fn strategy(tier: Tier) -> BoxedStrategy<OntCase> {
             for (a, b) in deci {
                 noise.decipher_rows.push((u32::from(a), term_ids[pick(b, term_ids.len())]));
             }
-            OntCase { facts, path: if transitive { PathSel::JaxT } else { PathSel::Jax }, noise }
+            let path = if transitive { PathSel::JaxT } else { PathSel::Jax };
+            let sel = (noise.not_rows.len() as u8).wrapping_mul(5).wrapping_add(noise.comments);
+            maybe_headerless(&mut facts, path, &mut noise, sel);
+            OntCase { facts, path, noise }
         })
         .boxed()
 }
@@ -160,7 +166,7 @@ impl Property for C09 {
         "C09"
     }
     fn rule(&self) -> String {
-        "Generated: fact sets (terms incl. HP:0000001/HP:0000118, obsolete and replaced terms incl. dangling replaced_by, names with ': ' and non-ASCII text, OMIM/ORPHA/gene rows) rendered by an own renderer into hp.obo, phenotype.hpoa and genes_to_phenotype.txt / phenotype_to_genes.txt in generated stanza and row order with noise that must be ignored: '#'/column-name header variants, extra tag lines before and after name (def, synonym, xref, alt_id, comment containing 'is_a: ', created_by with nested ': '), [Typedef] stanzas with is_a lines, explicit 'is_obsolete: false', is_a lines with a trailing {modifier}, blank rows in phenotype.hpoa, NOT rows (for existing links, for other terms, for diseases that only occur negated), DECIPHER rows, '#' comment rows, extra trailing columns. Both loaders. Oracle: complete read-API snapshot = reference model of the facts (version string, one term per stanza with name/flags/replacement/parents, links, inheritance, IC, categories); identical to the snapshot of from_bytes(own v3 encoding of the facts) and, when the facts carry no flags, of the Builder API with defaults. evaluations = loads. Non-trivial = >=1 NOT row, >=1 OMIM and >=1 ORPHA row, a name containing ': ', >=1 obsolete term; distinct = hash(facts, noise, loader).".into()
+        "Generated: fact sets (terms incl. HP:0000001/HP:0000118, obsolete and replaced terms incl. dangling replaced_by, names with ': ' and non-ASCII text, OMIM/ORPHA/gene rows) rendered by an own renderer into hp.obo, phenotype.hpoa and genes_to_phenotype.txt / phenotype_to_genes.txt in generated stanza and row order with noise that must be ignored: '#'/column-name header variants, an hp.obo without header block (release version 0000-00-00), extra tag lines before and after name (def, synonym, xref, alt_id, comment containing 'is_a: ', created_by with nested ': '), [Typedef] stanzas with is_a lines, explicit 'is_obsolete: false', is_a lines with a trailing {modifier}, blank rows in phenotype.hpoa, NOT rows (for existing links, for other terms, for diseases that only occur negated), DECIPHER rows, '#' comment rows, extra trailing columns. Both loaders. Oracle: complete read-API snapshot = reference model of the facts (version string, one term per stanza with name/flags/replacement/parents, links, inheritance, IC, categories); identical to the snapshot of from_bytes(own v3 encoding of the facts) and, when the facts carry no flags, of the Builder API with defaults. evaluations = loads. Non-trivial = >=1 NOT row, >=1 OMIM and >=1 ORPHA row, a name containing ': ', >=1 obsolete term; distinct = hash(facts, noise, loader).".into()
     }
     fn assumptions(&self) -> Vec<String> {
         vec![
@@ -176,7 +182,7 @@ impl Property for C09 {
         }
     }
     fn required_labels(&self, _tier: Tier) -> Vec<&'static str> {
-        vec!["nontrivial", "NOT-rows", "disease-only-negated", "NOT-row-for-an-existing-link", "DECIPHER-rows", "typedef-stanzas", "extra-columns", "name-with-colon-space", "non-ascii-name", "transitive-loader", "compared-with-builder"]
+        vec!["nontrivial", "NOT-rows", "disease-only-negated", "NOT-row-for-an-existing-link", "DECIPHER-rows", "typedef-stanzas", "extra-columns", "name-with-colon-space", "non-ascii-name", "transitive-loader", "compared-with-builder", "obo-without-header"]
     }
     fn run_generated(&self, tier: Tier, seed: u64, n: u64, stats: &mut Stats) -> Option<(Value, Failure)> {
         run_typed(strategy(tier), seed, n, stats, check)
